@@ -5,6 +5,7 @@ import (
 	"go/ast"
 	"go/token"
 	"go/types"
+	"sort"
 	"strings"
 )
 
@@ -40,6 +41,8 @@ func (w *walker) exprNamed(e ast.Expr, mode, hint string) *aval {
 			return w.n.env.get(o)
 		case *types.Func:
 			return &aval{funcs: []*funcVal{{fn: o.Origin()}}}
+		case *types.Nil:
+			return &aval{isNil: true}
 		}
 		return nil
 	case *ast.BasicLit:
@@ -64,6 +67,11 @@ func (w *walker) exprNamed(e ast.Expr, mode, hint string) *aval {
 	case *ast.BinaryExpr:
 		w.expr(x.X, "rd")
 		w.expr(x.Y, "rd")
+		if al, nv := w.condKnown(x); al {
+			return &aval{known: 1}
+		} else if nv {
+			return &aval{known: -1}
+		}
 		return nil
 	case *ast.IndexExpr:
 		if tv, ok := w.info.Types[x.X]; ok && (tv.IsType() || isGenericFunc(tv.Type)) {
@@ -110,17 +118,58 @@ func (w *walker) composite(x *ast.CompositeLit, hint string) *aval {
 	case "once":
 		return &aval{once: w.freshName(hint, x.Pos())}
 	}
-	for _, el := range x.Elts {
-		val := el
-		if kv, ok := el.(*ast.KeyValueExpr); ok {
-			val = kv.Value
-		}
-		v := w.expr(val, "rd")
-		if v != nil && (len(v.funcs) > 0 || v.ptrTo != "") {
-			w.escape(&aval{funcs: v.funcs, ptrTo: v.ptrTo, ptrTy: v.ptrTy}, "stored in a composite literal at "+w.where(val.Pos()), val.Pos())
+	var h *holder
+	if nt := derefNamed(t); nt != nil && inModule(nt.Obj().Pkg()) {
+		if _, isStruct := nt.Underlying().(*types.Struct); isStruct {
+			h = &holder{typ: typeKey(nt), fields: map[string]*aval{}, where: map[string]string{}}
 		}
 	}
+	for _, el := range x.Elts {
+		val := el
+		key := ""
+		if kv, ok := el.(*ast.KeyValueExpr); ok {
+			val = kv.Value
+			if id, ok := kv.Key.(*ast.Ident); ok {
+				key = id.Name
+			}
+		}
+		v := w.expr(val, "rd")
+		if v != nil && (len(v.funcs) > 0 || v.ptrTo != "" || v.holder != nil) {
+			if h != nil && key != "" {
+				h.fields[key] = merge(h.fields[key], v)
+				h.where[key] = w.where(val.Pos())
+				continue
+			}
+			w.escape(&aval{funcs: v.funcs, ptrTo: v.ptrTo, ptrTy: v.ptrTy, holder: v.holder, hprefix: v.hprefix}, "stored in a composite literal at "+w.where(val.Pos()), val.Pos())
+		}
+	}
+	if h != nil && len(h.fields) > 0 {
+		return &aval{holder: h}
+	}
 	return nil
+}
+
+// holderOf resolves an expression to a tracked struct value (no sites are recorded)
+func (w *walker) holderOf(e ast.Expr) (*holder, string) {
+	switch x := unparen(e).(type) {
+	case *ast.Ident:
+		if obj := w.info.Uses[x]; obj != nil {
+			if v := w.n.env.get(obj); v != nil && v.holder != nil {
+				return v.holder, v.hprefix
+			}
+		}
+	case *ast.SelectorExpr:
+		if h, pre := w.holderOf(x.X); h != nil {
+			return h, pre + x.Sel.Name + "."
+		}
+	case *ast.StarExpr:
+		return w.holderOf(x.X)
+	case *ast.UnaryExpr:
+		if x.Op == token.AND {
+			return w.holderOf(x.X)
+		}
+	}
+	return nil, ""
 }
 
 func (w *walker) freshName(hint string, pos token.Pos) string {
@@ -242,7 +291,7 @@ func (w *walker) selector(x *ast.SelectorExpr, mode string) *aval {
 			}
 		}
 		rv := w.expr(x.X, recvMode)
-		fv := &funcVal{fn: fn, foreign: w.isForeignBase(x.X)}
+		fv := &funcVal{fn: fn, foreign: w.isForeignBase(x.X), recv: rv}
 		out := &aval{funcs: []*funcVal{fv}}
 		// method values of sync primitives keep the lock identity (m.Lock passed to a helper)
 		if rv != nil && rv.lock != nil && (fn.Name() == "Lock" || fn.Name() == "Unlock") && fn.Pkg() != nil && fn.Pkg().Path() == "sync" {
@@ -255,6 +304,17 @@ func (w *walker) selector(x *ast.SelectorExpr, mode string) *aval {
 		return out
 	case types.FieldVal:
 		w.expr(x.X, "rd")
+		if h, pre := w.holderOf(x.X); h != nil {
+			k := pre + x.Sel.Name
+			if fv, ok := h.fields[k]; ok {
+				return fv
+			}
+			for fk := range h.fields {
+				if strings.HasPrefix(fk, k+".") {
+					return &aval{holder: h, hprefix: k + "."}
+				}
+			}
+		}
 		fld := sel.Obj().(*types.Var).Origin()
 		owner := derefNamed(sel.Recv())
 		if len(sel.Index()) > 1 {
@@ -568,7 +628,7 @@ func (w *walker) releasesOf(p *prepared) []tok {
 		}
 		w.d.analyze(n)
 		for _, r := range n.netRel {
-			if t2, _, ok := w.instantiate(r, p); ok {
+			if t2, _, _, ok := w.instantiate(r, p, n); ok {
 				out = append(out, t2)
 			}
 		}
@@ -576,30 +636,33 @@ func (w *walker) releasesOf(p *prepared) []tok {
 	return out
 }
 
-func (w *walker) instantiate(h heldTok, p *prepared) (tok, int, bool) {
-	if h.param == -1 {
-		return h.t, -1, true
+// instantiate: a token of the callee's summary, seen from the call site. Tokens relative to a
+// parameter of the callee are replaced by the argument's lock; tokens relative to a parameter of
+// some outer node (a clone chain passing a lock through) stay as they are.
+func (w *walker) instantiate(h heldTok, p *prepared, callee *fnNode) (tok, int, *fnNode, bool) {
+	if h.param == -1 || h.of != callee {
+		return h.t, h.param, h.of, true
 	}
 	var v *aval
 	if h.param == -2 {
 		v = p.recv
-	} else if h.param < len(p.args) {
+	} else if h.param >= 0 && h.param < len(p.args) {
 		v = p.args[h.param]
 	}
 	if v == nil || v.lock == nil {
-		return "", -1, false
+		return "", -1, nil, false
 	}
-	return tok("mu:" + v.lock.name), v.lock.param, true
+	return tok("mu:" + v.lock.name), v.lock.param, v.lock.of, true
 }
 
-func (w *walker) instLock(l *lockRef, p *prepared) *lockRef {
-	if l == nil || l.param == -1 {
+func (w *walker) instLock(l *lockRef, p *prepared, callee *fnNode) *lockRef {
+	if l == nil || l.param == -1 || l.of != callee {
 		return l
 	}
 	var v *aval
 	if l.param == -2 {
 		v = p.recv
-	} else if l.param < len(p.args) {
+	} else if l.param >= 0 && l.param < len(p.args) {
 		v = p.args[l.param]
 	}
 	if v == nil {
@@ -688,11 +751,26 @@ func (w *walker) runCall(p *prepared) *aval {
 		}
 		return out
 	case "func", "method":
-		return w.callFn(p.fn, p, nil)
+		out := w.callFn(p.fn, p, nil)
+		// a method of a field that returns a mutex (s.mtx.Get() on an atomic holder of *sync.Mutex):
+		// the mutex is named after the field that holds it
+		if (out == nil || out.lock == nil) && p.recvExpr != nil {
+			if tv, ok := w.info.Types[p.ce]; ok && syncKind(derefType(tv.Type)) == "mutex" {
+				if sx, ok := unparen(p.recvExpr).(*ast.SelectorExpr); ok {
+					if sel, ok := w.info.Selections[sx]; ok && sel.Kind() == types.FieldVal {
+						if owner := derefNamed(sel.Recv()); owner != nil && inModule(owner.Obj().Pkg()) {
+							out = merge(out, &aval{lock: &lockRef{name: typeKey(owner) + "." + sx.Sel.Name, param: -1}})
+						}
+					}
+				}
+			}
+		}
+		return out
 	}
 	for _, a := range p.args {
 		w.escape(a, "argument of an unresolved call at "+w.where(p.pos), p.pos)
 	}
+	w.escape(p.recv, "receiver of an unresolved call at "+w.where(p.pos), p.pos)
 	return nil
 }
 
@@ -705,7 +783,10 @@ func (w *walker) invoke(fv *funcVal, p *prepared, extra []tok) *aval {
 		w.d.analyze(n)
 		w.n.Calls = append(w.n.Calls, edge{Where: at, Callee: n, Held: append(toks(w.held), extra...)})
 		for _, h := range n.netAcq {
-			w.acquire(h.t, -1)
+			w.acquire(h.t, h.param, h.of)
+		}
+		for _, r := range n.netRel {
+			w.release(r.t, p.pos, r.param, r.of)
 		}
 		// function-typed arguments bound to parameters the closure invokes in place
 		w.bindParamCalls(n, p, extra)
@@ -717,6 +798,8 @@ func (w *walker) invoke(fv *funcVal, p *prepared, extra []tok) *aval {
 	case fv.fn != nil:
 		q := *p
 		q.recvForeign = fv.foreign
+		q.recv = fv.recv
+		q.recvExpr = nil
 		return w.callFn(fv.fn, &q, extra)
 	case fv.opaque != nil:
 		// a function supplied by the client
@@ -783,6 +866,19 @@ func (w *walker) callFn(fn *types.Func, p *prepared, extra []tok) *aval {
 		pkgPath = fn.Pkg().Path()
 	}
 	// ---- synchronisation primitives
+	if pkgPath == "sync/atomic" && p.recvExpr != nil {
+		if ln := w.latchName(p.recvExpr); ln != "" {
+			kind := "atomic"
+			if fn.Name() == "Store" || fn.Name() == "Swap" || fn.Name() == "Add" {
+				kind = "latchset"
+			}
+			if fn.Name() == "CompareAndSwap" && len(p.ce.Args) == 2 && types.ExprString(p.ce.Args[0]) != types.ExprString(p.ce.Args[1]) {
+				kind = "latchset"
+			}
+			w.n.Sites = append(w.n.Sites, site{Where: at, Loc: ln, Kind: kind, Held: append(toks(w.held), extra...), pos: p.pos,
+				Note: "operation on the publication flag " + ln})
+		}
+	}
 	if pkgPath == "sync" || pkgPath == "sync/atomic" {
 		recvName := ""
 		if sig := fn.Type().(*types.Signature); sig.Recv() != nil {
@@ -798,9 +894,9 @@ func (w *walker) callFn(fn *types.Func, p *prepared, extra []tok) *aval {
 			}
 			t := tok("mu:" + p.recv.lock.name)
 			if fn.Name() == "Lock" {
-				w.acquire(t, p.recv.lock.param)
+				w.acquire(t, p.recv.lock.param, p.recv.lock.of)
 			} else {
-				w.release(t, p.pos, p.recv.lock.param)
+				w.release(t, p.pos, p.recv.lock.param, p.recv.lock.of)
 			}
 			return nil
 		case recvName == "RWMutex" || fn.Name() == "TryLock":
@@ -819,7 +915,7 @@ func (w *walker) callFn(fn *types.Func, p *prepared, extra []tok) *aval {
 					w.held = saved
 				}
 			}
-			w.acquire(tok("after:"+p.recv.once), -1)
+			w.acquire(tok("after:"+p.recv.once), -1, nil)
 			return nil
 		case recvName == "Map" && fn.Name() == "Range":
 			if len(p.args) == 1 && p.args[0] != nil {
@@ -832,6 +928,20 @@ func (w *walker) callFn(fn *types.Func, p *prepared, extra []tok) *aval {
 		return nil
 	}
 	if !inModule(fn.Pkg()) {
+		switch pkgPath {
+		case "sort", "slices", "strings", "bytes", "maps":
+			// these packages call their function arguments before returning and never retain them
+			for _, a := range p.args {
+				if a != nil {
+					for _, fv := range a.funcs {
+						saved := copyHeld(w.held)
+						w.invoke(fv, &prepared{ce: p.ce, pos: p.pos, kind: "value"}, extra)
+						w.held = saved
+					}
+				}
+			}
+			return nil
+		}
 		for _, a := range p.args {
 			w.escape(a, "passed to "+funcKeySafe(fn)+" at "+at, p.pos)
 		}
@@ -861,21 +971,21 @@ func (w *walker) callTarget(t *types.Func, p *prepared, extra []tok) *aval {
 	at := w.where(p.pos)
 	key := funcKey(t)
 	// another domain's public entry point: this domain is a client there
-	if od := d.a.rootDomainOf(t); od != "" && od != d.cfg.Name {
+	if od := d.a.rootTypeDomainOf(t); od != "" && od != d.cfg.Name {
 		for _, a := range p.args {
 			w.escape(a, "passed to "+key+" at "+at, p.pos)
 		}
-		if p.recv != nil && len(p.recv.funcs) > 0 {
-			w.escape(&aval{funcs: p.recv.funcs}, "receiver of "+key+" at "+at, p.pos)
+		if p.recv != nil && (len(p.recv.funcs) > 0 || p.recv.holder != nil) {
+			w.escape(&aval{funcs: p.recv.funcs, holder: p.recv.holder}, "receiver of "+key+" at "+at, p.pos)
 		}
 		return nil
 	}
-	anyVal, anyFunc := hasVal(p.recv), p.recv != nil && len(p.recv.funcs) > 0
+	anyVal, anyFunc := hasVal(p.recv), p.recv != nil && (len(p.recv.funcs) > 0 || p.recv.holder != nil)
 	for _, a := range p.args {
 		if hasVal(a) {
 			anyVal = true
 		}
-		if a != nil && len(a.funcs) > 0 {
+		if a != nil && (len(a.funcs) > 0 || a.holder != nil) {
 			anyFunc = true
 		}
 	}
@@ -901,6 +1011,11 @@ func (w *walker) callTarget(t *types.Func, p *prepared, extra []tok) *aval {
 	cloneAt := ""
 	if anyFunc || (returnsInteresting && !d.home[pk]) {
 		cloneAt = at
+		// a clone called from a clone: keep the chain's first call site in the key, so that two
+		// chains through the same generic helper do not share a node
+		if root := w.n.declRoot(); root.chain != "" {
+			cloneAt = at + "~" + root.chain
+		}
 	}
 	if w.n.depth > 14 {
 		d.unknown(w.n, p.pos, "call chain too deep while following "+key)
@@ -912,10 +1027,16 @@ func (w *walker) callTarget(t *types.Func, p *prepared, extra []tok) *aval {
 		for _, a := range p.args {
 			w.escape(a, "passed to "+key+" (no body) at "+at, p.pos)
 		}
+		w.escape(p.recv, "receiver of "+key+" (no body) at "+at, p.pos)
 		return nil
 	}
 	if cloneAt != "" && !n.analyzed && !n.analyzing {
 		n.depth = w.n.depth + 1
+		if root := w.n.declRoot(); root.chain != "" {
+			n.chain = root.chain
+		} else {
+			n.chain = at
+		}
 		for i, a := range p.args {
 			if i < len(n.params) && hasVal(a) {
 				n.env.vars[n.params[i]] = a
@@ -928,7 +1049,7 @@ func (w *walker) callTarget(t *types.Func, p *prepared, extra []tok) *aval {
 		}
 	} else if cloneAt == "" {
 		for _, a := range p.args {
-			if a != nil && len(a.funcs) > 0 {
+			if a != nil && (len(a.funcs) > 0 || a.holder != nil) {
 				w.escape(a, "passed to "+key+" at "+at, p.pos)
 			}
 		}
@@ -939,17 +1060,17 @@ func (w *walker) callTarget(t *types.Func, p *prepared, extra []tok) *aval {
 		return nil // recursion: no summary yet (the repository's recursive helpers are lock-neutral)
 	}
 	for _, r := range n.netRel {
-		if t2, par, ok := w.instantiate(r, p); ok {
+		if t2, par, of, ok := w.instantiate(r, p, n); ok {
 			if !p.deferred {
-				w.release(t2, p.pos, par)
+				w.release(t2, p.pos, par, of)
 			}
 		} else {
 			d.unknown(w.n, p.pos, "cannot tell which lock "+key+" releases here")
 		}
 	}
 	for _, h := range n.netAcq {
-		if t2, par, ok := w.instantiate(h, p); ok {
-			w.acquire(t2, par)
+		if t2, par, of, ok := w.instantiate(h, p, n); ok {
+			w.acquire(t2, par, of)
 		} else {
 			d.unknown(w.n, p.pos, "cannot tell which lock "+key+" acquires here")
 		}
@@ -957,7 +1078,7 @@ func (w *walker) callTarget(t *types.Func, p *prepared, extra []tok) *aval {
 	var out *aval
 	if len(n.results) > 0 && n.results[0] != nil {
 		r := n.results[0]
-		out = &aval{once: r.once, funcs: r.funcs, ptrTo: r.ptrTo, ptrTy: r.ptrTy, lock: w.instLock(r.lock, p)}
+		out = &aval{once: r.once, funcs: r.funcs, ptrTo: r.ptrTo, ptrTy: r.ptrTy, holder: r.holder, hprefix: r.hprefix, lock: w.instLock(r.lock, p, n), known: r.known, isNil: r.isNil}
 	}
 	return out
 }
@@ -979,6 +1100,38 @@ func (w *walker) escape(v *aval, why string, pos token.Pos) {
 	if v.ptrTo != "" && v.ptrTy != nil {
 		w.pointerEscape(v, why, at)
 	}
+	if v.holder != nil && !v.holder.escaped {
+		h := v.holder
+		h.escaped = true
+		var keys []string
+		for k := range h.fields {
+			keys = append(keys, k)
+		}
+		sort.Strings(keys)
+		for _, k := range keys {
+			w.escapeAt(h.fields[k], "stored in "+h.typ+"."+k+" at "+h.where[k]+", "+why, h.where[k])
+		}
+	}
+}
+
+// escapeAt: like escape, with an explicit location string for the entries
+func (w *walker) escapeAt(v *aval, why, at string) {
+	if v == nil {
+		return
+	}
+	for _, fv := range v.funcs {
+		what := "closure-escaping"
+		if fv.fn != nil {
+			what = "method-value-escaping"
+		}
+		w.enter(fv, what+" ("+why+")", at, nil)
+	}
+	if v.ptrTo != "" && v.ptrTy != nil {
+		w.pointerEscape(v, why, at)
+	}
+	if v.holder != nil && !v.holder.escaped {
+		w.escape(v, why, token.NoPos)
+	}
 }
 
 func (w *walker) enter(fv *funcVal, what, at string, held []tok) {
@@ -992,7 +1145,7 @@ func (w *walker) enter(fv *funcVal, what, at string, held []tok) {
 		fv.lit.Entries = append(fv.lit.Entries, entry{What: what, Where: at, Held: held})
 	case fv.fn != nil:
 		for _, t := range w.targets(fv.fn, nil) {
-			if od := d.a.rootDomainOf(t); od != "" {
+			if od := d.a.rootTypeDomainOf(t); od != "" || (d.a.extraOf[funcKey(t)] == d.cfg.Name) {
 				continue // a public entry point anyway (of this or another domain)
 			}
 			pk := ""
